@@ -4864,7 +4864,8 @@ class CubicBezier(Curve):
         local_extremizers = [0, 1]
         a = [c[v] for c in self]
         denom = a[0] - 3 * a[1] + 3 * a[2] - a[3]
-        if abs(denom) >= 1e-8:
+        # The cubic term is negligible relative to the extent of the curve on this axis, not in absolute units.
+        if denom != 0 and abs(denom) >= 1e-8 * (max(a) - min(a)):
             delta = (
                 a[1] * a[1] - (a[0] + a[1]) * a[2] + a[2] * a[2] + (a[0] - a[1]) * a[3]
             )
